@@ -92,13 +92,47 @@ def C(txt_or_val, neg=False):
         try:
             v = float(v) if "." in v else int(v)
         except ValueError:
-            raise BadNumber(txt_or_val)
+            if v.isascii() and v.isdigit():
+                v = big_int(v)      # only the interpreter's int(str) digit limit stood in the way: the literal is well formed
+            else:
+                raise BadNumber(txt_or_val)
     if neg:
         v = -v
     tag = "bu:int" if isinstance(v, int) else "bu:float"
     if isinstance(v, float) and (v != v or v in (float("inf"), float("-inf"))):
         return ("Constant", (tag, "nan" if v != v else ("inf" if v > 0 else "-inf")), None, None)
     return ("Constant", (tag, Fraction(v)), None, None)
+
+
+def big_int(digits):
+    """int(digits) with the interpreter's limit on int<->str conversion lifted for the moment"""
+    import sys
+
+    lim = sys.get_int_max_str_digits()
+    sys.set_int_max_str_digits(0)
+    try:
+        return int(digits)
+    finally:
+        sys.set_int_max_str_digits(lim)
+
+
+def safe_str(v):
+    """str(v), or a hexadecimal rendering when the value is beyond the interpreter's int->str limit"""
+    try:
+        return str(v)
+    except ValueError:
+        if isinstance(v, Fraction):
+            return f"0x{v.numerator:x}/0x{v.denominator:x}"
+        return f"0x{v:x}"
+
+
+def over_int_limit(text):
+    """does the text contain a digit run longer than the interpreter's int(str) limit?"""
+    import re
+    import sys
+
+    lim = sys.get_int_max_str_digits()
+    return bool(lim) and any(len(m) > lim for m in re.findall(r"[0-9]+", text))
 
 
 def V(name):
@@ -261,7 +295,7 @@ def leaves(s, out=None):
         out = []
     if s is not None:
         if s[0] == "Constant":
-            out.append(("C", str(s[1][1])))
+            out.append(("C", safe_str(s[1][1])))
         elif s[0] == "Variable":
             out.append(("V", s[1]))
         else:
